@@ -228,7 +228,7 @@ func init() {
 		}
 	}
 	// weights <hex json> <json.Unmarshal's answer>: the second argument is for the model only
-	opTable["weights"] = func(s *Session, a []string) string {
+	opTable["weightsjson"] = func(s *Session, a []string) string {
 		var w ai.Weights
 		if err := w.UnmarshalJSON(hexDec(a[0])); err != nil {
 			return "err"
